@@ -647,3 +647,11 @@ func TestVerifC06Deviations(t *testing.T) {
 		}
 	}
 }
+
+// TestVerifC06DegenerateU: forged commitment proofs whose U is not a unit modulo n (see vfDegenerateUForgeries).
+func TestVerifC06DegenerateU(t *testing.T) {
+	r := vkit.Start(t, "C06", "degenerate-commitment", 120*time.Second, 300*time.Second)
+	defer r.Finish()
+	r.Rule = "keys {toyA, k1024a} x U in {0, n, 2n, n(n+1)} x {plain, with a random-blind response}; challenge computed from what the verifier reconstructs; non-trivial = distinct forgery; oracle: the issuer's check of the commitment proof never accepts"
+	vfDegenerateUForgeries(r, "C06", []string{"toyA", "k1024a"})
+}
